@@ -39,7 +39,9 @@ def budget(tier):
 
 class Plan:
     def __init__(self, faults):
-        self.faults = {int(k): v for k, v in (faults or {}).items()}
+        self.faults = {int(k): v for k, v in (faults or {}).items() if not str(k).startswith('s')}
+        self.subfaults = {int(str(k)[1:]): v for k, v in (faults or {}).items() if str(k).startswith('s')}   # allocation failures inside the k-th sub-matrix extraction
+        self.subs = 0
         self.calls = 0
         self.precons = 0
         self.fired = {}
@@ -75,6 +77,10 @@ def _make_backend():
             return FaultyMatrix(self.core.T)
 
         def _submatrix(self, rows, cols):
+            PLAN.subs += 1
+            if PLAN.subfaults.get(PLAN.subs):
+                PLAN.fire('SUBMATRIX_ALLOC')
+                raise MemoryError('injected: allocation of the sub-matrix failed')
             return FaultyMatrix(super()._submatrix(rows, cols).core)
 
         def _wrap(self, solve):
@@ -181,6 +187,9 @@ def make_matrix(spec):
         A[i % n, :] = 0
     for i, j, v in spec.get('small', ()):
         A[i % n, j % n] = v
+    if spec.get('nonfinite'):
+        i, j, v = spec['nonfinite']
+        A[i % n, j % n] = {'nan': numpy.nan, 'inf': numpy.inf}[v]   # a coefficient that evaluated to something non-finite
     return A
 
 
@@ -363,7 +372,12 @@ def gen_project_case(rng):
 
 def gen_case(rng, index, tier):
     r = rng.random()
-    if r < 0.08:
+    if r < 0.03:
+        case = gen_csystem_case(rng)
+        if rng.random() < 0.3:
+            case['faults'] = gen_faults(rng, ncalls_hint=rng.choice([3, 8]))
+        return case
+    if r < 0.11:
         case = gen_project_case(rng)
         if rng.random() < 0.5:
             case['faults'] = gen_faults(rng, ncalls_hint=rng.choice([2, 4]))
@@ -374,7 +388,13 @@ def gen_case(rng, index, tier):
         for k in range(1, len(ops)):
             if rng.random() < 0.45:
                 ops[k] = vary_solve_op(rng, ops[k - 1], spec['n'])
+        if rng.random() < 0.05:
+            spec['nonfinite'] = [rng.randrange(spec['n']), rng.randrange(spec['n']), rng.choice(['nan', 'nan', 'inf'])]
         case = dict(kind='matrix', spec=spec, ops=ops, faults={})
+        if rng.random() < 0.12 and len(ops) > 1:
+            # an allocation failure inside one of the sub-matrix extractions of this history (the memo of the matrix object is written around it)
+            case['faults'] = {'s%d' % rng.randint(1, len(ops)): dict(kind='SUBMATRIX_ALLOC')}
+            case['_subfault'] = True
     else:
         spec = gen_system_spec(rng)
         ops = [gen_system_op(rng, spec) for _ in range(rng.choice([1, 1, 2, 3, 5] if spec['kind'] not in ('time', 'linparam') else [1, 2, 3, 4, 6]))]
@@ -395,7 +415,7 @@ def gen_case(rng, index, tier):
                 o['vseed'] = rng.randrange(1 << 30) if rng.random() < 0.5 else o['vseed']
                 ops[k] = o
         case = dict(kind='system', spec=spec, ops=ops, faults={})
-    if rng.random() < 0.5:
+    if rng.random() < 0.5 and not case.pop('_subfault', False):
         case['faults'] = gen_faults(rng, ncalls_hint=rng.choice([3, 8, 20]))
         if rng.random() < 0.3:
             # a fault on the very first back-end call: the one a single direct solve makes
@@ -471,11 +491,18 @@ def run_matrix(case, B):
                 kw['symmetric'] = True
             reached0 = PLAN.reached
             fired0 = dict(PLAN.fired)
-            try:
-                x = (M.solve_leniently if op['lenient'] else M.solve)(rhs, **{k: (v.copy() if isinstance(v, numpy.ndarray) else v) for k, v in kw.items()})
-                outcome = ('return', x)
-            except Exception as e:
-                outcome = ('raise', type(e).__name__, str(e)[:200], _is_ok_exc(e))
+            for attempt in (0, 1):
+                nsub0 = PLAN.fired.get('SUBMATRIX_ALLOC', 0)
+                try:
+                    x = (M.solve_leniently if op['lenient'] else M.solve)(rhs, **{k: (v.copy() if isinstance(v, numpy.ndarray) else v) for k, v in kw.items()})
+                    outcome = ('return', x)
+                except Exception as e:
+                    outcome = ('raise', type(e).__name__, str(e)[:200], _is_ok_exc(e))
+                    if isinstance(e, MemoryError) and PLAN.fired.get('SUBMATRIX_ALLOC', 0) > nsub0 and attempt == 0:
+                        # the injected allocation failure surfaced as itself: fine.  The caller tries again - the retry must be served a correct answer
+                        log.append((op['op'], 'raise', 'MemoryError(injected)', PLAN.reached - reached0))
+                        continue
+                break
             faulted = PLAN.fired != fired0
             log.append((op['op'], outcome[0], outcome[1] if outcome[0] == 'raise' else '', PLAN.reached - reached0))
             op = dict(op, _cond=case['spec']['cond'])
@@ -523,8 +550,19 @@ def check_matrix_solve(A, op, rhs, kw, lhs0, outcome, faulted, cplx):
     if (x[~J] != x0[~J]).any():
         return ('R-constraint-violated', f'constrained entries differ from their prescribed values: got {x[~J].ravel()[:4].tolist()}, prescribed {x0[~J].ravel()[:4].tolist()}')
     I = ~kw['rconstrain'] if 'rconstrain' in kw else J
+    with numpy.errstate(all='ignore'):
+        rfree = (b - A @ x)[I]
+    if not numpy.isfinite(rfree).all() and not faulted and numpy.isfinite(x).all() and not (x == 0).all():   # the zero vector (zero right hand side, or one within the requested tolerance) is returned without looking at the matrix
+        # the matrix holds a non-finite coefficient that takes part in the free equations: their residual cannot be evaluated, let alone be within
+        # any tolerance; nothing may be returned as a solution
+        return ('R-non-finite-residual-accepted', f'the residual of the free equations at the returned vector is non-finite ({numpy.asarray(rfree).ravel()[:4].tolist()}) but the solve returned {x.ravel()[:4].tolist()}')
     if op['lenient']:
         return None
+    if not numpy.isfinite(A).all():
+        # the non-finite coefficient takes no part in the free equations (see above): certify with it masked out
+        A = numpy.where(numpy.isfinite(A), A, 0.)
+        if not numpy.isfinite((b - A @ x0)[I]).all():
+            return None
     r0 = _norm((b - A @ x0)[I])
     tau = max(op['atol'], op['rtol'] * r0)
     res = _norm((b - A @ x)[I])
@@ -678,6 +716,55 @@ def run_system(case, B):
             log.append((op['op'], str(op.get('method')), outkind, PLAN.reached - reached0))
             if bad:
                 return bad[0], f'op {oi} ({json.dumps({k: v for k, v in op.items() if k not in ("cmask", "vseed")})}): {bad[1]}', log
+    return None, None, log
+
+
+def gen_csystem_case(rng):
+    n = rng.choice([2, 3, 4, 6])
+    ops = [dict(op='csolve', kappa=rng.choice([0., .5, 1., 1.3, 2., 5., -1.]), method=rng.choice(['arnoldi', 'arnoldi', 'arnoldi', 'direct', 'newton']), tol=rng.choice([1e-10, 1e-8, 1e-5]),
+                guess=rng.choice(['none', 'prev', 'prev'])) for _ in range(rng.choice([2, 3, 4, 5]))]
+    return dict(kind='csystem', spec=dict(n=n, kind='csystem', sseed=rng.randrange(1 << 30), arn=dict(maxiter=rng.choice([1, 2, 3]), atol=0.)), ops=ops, faults={})
+
+
+def run_csystem(case, B):
+    '''A COMPLEX-valued parameter dependent linear system solved along a history with one Arnoldi method object (and Direct, Newton): the same certificate as for real systems.'''
+    from nutils import matrix, solver, function
+    spec = case['spec']
+    n = spec['n']
+    r = numpy.random.RandomState(spec['sseed'])
+    A = r.randn(n, n) + 1j * r.randn(n, n) + numpy.eye(n) * (3 + 1j)
+    A1 = (r.randn(n, n) + 1j * r.randn(n, n)) * .4
+    b = r.randn(n) + 1j * r.randn(n)
+    log = []
+    with matrix.backend(B):
+        u = function.Argument('u', (n,), dtype=complex)
+        k = function.Argument('kappa', ())
+        system = solver.System(((function.Array.cast(A) + k * function.Array.cast(A1)) @ u - function.Array.cast(b),), trial='u')
+        arn = solver.Arnoldi(maxiter=spec['arn']['maxiter'])
+        last = None
+        for oi, op in enumerate(case['ops']):
+            args = {'kappa': numpy.array(op['kappa'])}
+            if op['guess'] == 'prev' and last is not None:
+                args['u'] = last.copy()
+            m = {'arnoldi': arn, 'direct': solver.Direct(), 'newton': solver.Newton()}[op['method']]
+            fired0 = dict(PLAN.fired)
+            try:
+                out = system.solve(arguments=args, method=m, tol=op['tol'], maxiter=20)
+            except Exception as e:
+                log.append(('csolve', op['method'], 'raise:' + type(e).__name__))
+                if not _is_ok_exc(e):
+                    return 'E-unexpected-exception:' + type(e).__name__, f'op {oi}: {type(e).__name__}: {str(e)[:200]} escaped (only solver/matrix errors may)', log
+                continue
+            x = numpy.asarray(out['u'])
+            log.append(('csolve', op['method'], 'return'))
+            if not numpy.isfinite(x).all():
+                return 'R-non-finite', f'op {oi}: returned non-finite values', log
+            M = A + op['kappa'] * A1
+            rn = float(numpy.linalg.norm(M @ x - b))
+            slack = 64 * numpy.finfo(float).eps * (float(numpy.linalg.norm(M, 2)) * float(numpy.linalg.norm(x)) + float(numpy.linalg.norm(b))) * n
+            if not rn <= op['tol'] * (1 + 1e-9) + slack:
+                return 'R-tolerance-not-met', f'op {oi} ({json.dumps(op)}): complex system, solve(method={op["method"]}) returned with independent residual norm {rn:.3e} > requested tolerance {op["tol"]:.1e}', log
+            last = x
     return None, None, log
 
 
@@ -1058,6 +1145,8 @@ def run_case(case):
             vclass, detail, log = run_matrix(case, B)
         elif case['kind'] == 'project':
             vclass, detail, log = run_project(case, B)
+        elif case['kind'] == 'csystem':
+            vclass, detail, log = run_csystem(case, B)
         else:
             vclass, detail, log = run_system(case, B)
     sig = core.sha([case['kind'], [(l[0], l[1], l[2]) for l in log], sorted(PLAN.fired), [tuple(sorted((k, str(v)) for k, v in op.items() if k not in ('vseed', 'cmask', 'rmask'))) for op in case['ops']], case['spec'].get('cond') or case['spec'].get('kind'), case['spec']['n']])
